@@ -16,7 +16,10 @@ import (
 	"time"
 
 	netty "github.com/go-netty/go-netty"
+	"github.com/go-netty/go-netty/codec/format"
+	"github.com/go-netty/go-netty/codec/frame"
 	"github.com/go-netty/go-netty/transport"
+	"github.com/go-netty/go-netty/transport/tcp"
 	"github.com/go-netty/go-netty/utils/pool/pbuffer"
 	"github.com/go-netty/go-netty/utils/pool/pbytes"
 	"pgregory.net/rapid"
@@ -46,7 +49,9 @@ type C12Case struct {
 var c12Ops = map[string][]string{
 	"sync": {"write1", "writev", "ctxwrite1", "ctxwritev", "writerwrite", "readfrom", "write", "trigger", "close", "isactive", "context", "inbound"},
 	// a channel whose pipeline has no exception handler of its own: exceptions reach the built-in tail handler
-	"bare":      {"badwrite", "badwrite", "write1", "trigger", "isactive"},
+	"bare": {"badwrite", "badwrite", "write1", "trigger", "isactive"},
+	// a queued channel whose pipeline holds the shipped varint frame codec and JSON codec: messages are objects
+	"json":      {"objwrite", "objwrite", "textwrite", "inbound", "isactive"},
 	"qblock":    {"write1", "writev", "ctxwrite1", "ctxwritev", "writerwrite", "readfrom", "write", "trigger", "close", "isactive", "context", "inbound"},
 	"qnonblock": {"write1", "writev", "ctxwrite1", "ctxwritev", "writerwrite", "readfrom", "write", "trigger", "close", "isactive", "context", "inbound"},
 	"bootstrap": {"listen-async", "listener-close", "shutdown", "connect", "inbound", "context"},
@@ -58,10 +63,10 @@ var c12Ops = map[string][]string{
 
 var c12Mutating = map[string]bool{"close": true, "shutdown": true, "listener-close": true, "closeall": true, "listen-async": true, "connect": true,
 	"open-channel": true, "close-channel": true, "write1": true, "writev": true, "ctxwrite1": true, "ctxwritev": true, "writerwrite": true,
-	"readfrom": true, "write": true, "badwrite": true, "inbound": true, "bytes-get-put": true, "buffer-get-put": true, "bytes-put-foreign": true, "trigger": true}
+	"readfrom": true, "write": true, "badwrite": true, "objwrite": true, "textwrite": true, "inbound": true, "bytes-get-put": true, "buffer-get-put": true, "bytes-put-foreign": true, "trigger": true}
 
 func genC12Prog(t *rapid.T) C12Prog {
-	p := C12Prog{Target: rapid.SampledFrom([]string{"sync", "qblock", "qblock", "qnonblock", "bootstrap", "bootstrap", "tcp", "holder", "idle", "pool", "bare"}).Draw(t, "target")}
+	p := C12Prog{Target: rapid.SampledFrom([]string{"sync", "qblock", "qblock", "qnonblock", "bootstrap", "bootstrap", "tcp", "holder", "idle", "pool", "bare", "json"}).Draw(t, "target")}
 	ops := c12Ops[p.Target]
 	ng := rapid.IntRange(2, 4).Draw(t, "ng")
 	for g := 0; g < ng; g++ {
@@ -300,6 +305,9 @@ func newC12Env(p C12Prog) *c12Env {
 	case "sync", "qblock", "qnonblock":
 		e.ch, e.tr = newCh(p.Target)
 		e.ch.Pipeline().ServeChannel(e.ch)
+	case "json":
+		e.ch, e.tr = newCh("qblock", frame.VarintLengthFieldCodec(1<<20), format.JSONCodec(true, false))
+		e.ch.Pipeline().ServeChannel(e.ch)
 	case "bare":
 		tr := mock.NewTransport(nil, false, nil)
 		pl := netty.NewPipeline()
@@ -322,6 +330,8 @@ func newC12Env(p C12Prog) *c12Env {
 		e.bs = netty.NewBootstrap(netty.WithTransport(e.factory),
 			netty.WithChildInitializer(func(ch netty.Channel) { c12Pipeline(ch) }), netty.WithClientInitializer(func(ch netty.Channel) { c12Pipeline(ch) }))
 	case "tcp":
+		// one *tcp.Options value shared by every Connect/Listen of the program (keep-alive on, period left at its zero value)
+		e.opts = append(make([]transport.Option, 0, 4), tcp.WithOptions(&tcp.Options{KeepAlive: true, NoDelay: true}))
 		e.port = 21000 + int(atomic.AddInt32(&c12Port, 1))%2000 + 2000*(os.Getpid()%10)
 		e.bs = netty.NewBootstrap(netty.WithChildInitializer(func(ch netty.Channel) { c12Pipeline(ch) }), netty.WithClientInitializer(func(ch netty.Channel) { c12Pipeline(ch) }))
 	}
@@ -346,6 +356,10 @@ func (e *c12Env) do(op string, g, k int) {
 		_, _ = e.ch.ReadFrom(bytes.NewReader(make([]byte, 1500)))
 	case "write":
 		_ = e.ch.Write(payload)
+	case "objwrite":
+		_ = e.ch.Write(map[string]interface{}{"g": g, "k": k, "text": "some text to encode", "list": []int{1, 2, 3}})
+	case "textwrite":
+		_ = e.ch.Write(map[string]interface{}{"t": fmt.Sprintf("writer %d message %d", g, k)})
 	case "badwrite":
 		_ = e.ch.Write(struct{ A int }{g}) // unsupported type: the head handler raises
 	case "trigger":
